@@ -175,7 +175,13 @@ func c09OutEval(e *Env, c c09OutCase) {
 	case "stdout-full":
 		o.Redirect = ">/dev/full"
 	case "o-full":
-		args = append(args, "-o", "/dev/full")
+		// through a symbolic link in the scratch directory: a writer that replaces the -o path
+		// (temporary file + rename) then replaces the link, never the device node itself
+		link := filepath.Join(dir, "full-device")
+		if err := os.Symlink("/dev/full", link); err != nil {
+			panic(err)
+		}
+		args = append(args, "-o", link)
 	case "o-missing-dir":
 		args = append(args, "-o", filepath.Join(dir, "no", "such", "dir", "out"))
 	case "o-directory":
@@ -230,6 +236,21 @@ func c09OutEval(e *Env, c c09OutCase) {
 	}
 }
 
+// fullDeviceWorks: /dev/full exists, is a device and refuses a write.
+func fullDeviceWorks() bool {
+	st, err := os.Stat("/dev/full")
+	if err != nil || st.Mode()&os.ModeCharDevice == 0 {
+		return false
+	}
+	f, err := os.OpenFile("/dev/full", os.O_WRONLY, 0)
+	if err != nil {
+		return false
+	}
+	defer f.Close()
+	_, err = f.Write([]byte("x"))
+	return err != nil
+}
+
 func c09OutputPaths(e *Env, text, degText string) {
 	type cmd struct {
 		args  []string
@@ -246,6 +267,11 @@ func c09OutputPaths(e *Env, text, degText string) {
 	}
 	// (a closed stdout is no such destination: the Go runtime opens /dev/null on a closed descriptor 0-2)
 	dests := []string{"stdout-full", "o-full", "o-missing-dir", "o-directory", "o-read-only"}
+	if !fullDeviceWorks() {
+		// not a full device in this environment (missing, or replaced by a regular file): no verdicts from it
+		e.R.NotExhaustive("/dev/full does not refuse writes in this environment: the full-device destinations were left out")
+		dests = dests[2:]
+	}
 	var cases []c09OutCase
 	for i, c := range cmds {
 		for _, d := range dests {
